@@ -3,6 +3,7 @@ package c01
 
 import (
 	"bytes"
+	"encoding/binary"
 	"encoding/json"
 	"fmt"
 	"testing"
@@ -44,6 +45,114 @@ type Case struct {
 	Tags []uint16 `json:"tags,omitempty"`
 	// SetTag calls on the Fcall that came out of Unpack
 	UTags []uint16 `json:"utags,omitempty"`
+	// What happens to the source buffer after Unpack / UnpackDir has returned and
+	// the decoded value has been compared once; the kept value is then compared
+	// with the reference again. "" nothing, "zero", "flip" (every byte ^0xFF),
+	// "fill" (AfterFill repeated), "next" (the buffer receives another message /
+	// stat record, Next in dialect NextDotu, which is decoded from it, then the
+	// buffer is flipped), "eat" (dir only: the bytes of every record are
+	// overwritten with AfterFill as soon as UnpackDir has returned it).
+	After     string `json:"after,omitempty"`
+	AfterFill []byte `json:"afterfill,omitempty"`
+	Next      []byte `json:"next,omitempty"`
+	NextDotu  bool   `json:"nextdotu,omitempty"`
+}
+
+// clobber changes the decode source buffer the way c.After says.
+func clobber(c *Case, buf []byte) {
+	switch c.After {
+	case "zero":
+		clear(buf)
+	case "flip", "next":
+		i := 0
+		for ; i+8 <= len(buf); i += 8 {
+			binary.LittleEndian.PutUint64(buf[i:], ^binary.LittleEndian.Uint64(buf[i:]))
+		}
+		for ; i < len(buf); i++ {
+			buf[i] ^= 0xFF
+		}
+	case "fill", "eat":
+		pat := c.AfterFill
+		if len(pat) == 0 {
+			pat = []byte{0x5A}
+		}
+		n := copy(buf, pat)
+		for n < len(buf) {
+			// doubling copy: buf[:n] is a whole number of patterns (or all of buf)
+			n += copy(buf[n:], buf[:n])
+		}
+	}
+}
+
+// inBuf: the buffer a message / record sequence of n bytes is decoded from; when
+// another message is received into it afterwards it has room for that one too
+// (a receiver's single frame buffer), the decoder is handed the first n bytes.
+func inBuf(c *Case, content, junk []byte) []byte {
+	n := len(content) + len(junk)
+	sz := n
+	if c.After == "next" && len(c.Next) > sz {
+		sz = len(c.Next)
+	}
+	b := make([]byte, sz)
+	copy(b[copy(b, content):], junk)
+	return b[:n]
+}
+
+// keptMsg: the fields of an Fcall that Unpack returned earlier, read again now,
+// must still be the reference values. Strings are Go values of their own
+// (immutable by the language), integers and qids were copied; only Data (and
+// Pkt/Buf) refer to the source buffer and are left out of the comparison (its
+// length is not).
+func keptMsg(got *go9p.Fcall, want *ref9p.Msg, dotu bool, when string) error {
+	g, w := conv.FromFcall(got), *want
+	if len(g.Data) != len(w.Data) || int(got.Size) != len(got.Pkt) {
+		return fmt.Errorf("%s dotu=%v: len(Data) %d (want %d), Size %d, len(Pkt) %d of the Fcall that Unpack returned changed after %s", ref9p.TypeName(want.Type), dotu, len(g.Data), len(w.Data), got.Size, len(got.Pkt), when)
+	}
+	g.Data, w.Data = nil, nil
+	a, b := ref9p.Canon(g, dotu), ref9p.Canon(&w, dotu)
+	if d := ref9p.Diff(a, b); d != "" {
+		return fmt.Errorf("%s dotu=%v: a field of the Fcall that Unpack returned (and that compared equal right after decoding) changed after %s: %s", ref9p.TypeName(want.Type), dotu, when, d)
+	}
+	return nil
+}
+
+// afterMsg runs the c.After step on the buffer `full` (whose first bytes were
+// decoded into got) and compares got with want again.
+func afterMsg(c *Case, got *go9p.Fcall, want *ref9p.Msg, full []byte) error {
+	if c.After == "" {
+		return nil
+	}
+	when := "the source buffer was overwritten (" + c.After + ")"
+	if c.After == "next" {
+		nm, n, err := ref9p.Decode(c.Next, c.NextDotu)
+		if err != nil || n != len(c.Next) {
+			return fmt.Errorf("harness: reference bytes of the next message do not decode: %v", err)
+		}
+		if len(full) < len(c.Next) {
+			full = full[:cap(full)]
+		}
+		if len(full) < len(c.Next) {
+			return fmt.Errorf("harness: buffer of %d bytes cannot take the next message of %d", len(full), len(c.Next))
+		}
+		copy(full, c.Next)
+		got2, consumed, derr := go9p.Unpack(full[:len(c.Next)], c.NextDotu)
+		if derr != nil || consumed != len(c.Next) {
+			return fmt.Errorf("%s dotu=%v received into the buffer an earlier message was decoded from: Unpack consumed %d of %d, err %v", ref9p.TypeName(nm.Type), c.NextDotu, consumed, len(c.Next), derr)
+		}
+		if d := ref9p.Diff(ref9p.Canon(conv.FromFcall(got2), c.NextDotu), ref9p.Canon(nm, c.NextDotu)); d != "" {
+			return fmt.Errorf("%s dotu=%v received into the buffer an earlier message was decoded from: decoded field differs from the input: %s", ref9p.TypeName(nm.Type), c.NextDotu, d)
+		}
+		if err := keptMsg(got, want, c.Dotu, fmt.Sprintf("a %s was received into the same buffer and decoded", ref9p.TypeName(nm.Type))); err != nil {
+			return err
+		}
+		clobber(c, full)
+		if err := keptMsg(got2, nm, c.NextDotu, "its source buffer was overwritten (flip)"); err != nil {
+			return err
+		}
+		return keptMsg(got, want, c.Dotu, when)
+	}
+	clobber(c, full)
+	return keptMsg(got, want, c.Dotu, when)
 }
 
 // newFcall gives an Fcall with room for need+c.Slack bytes (and for c.Prev) in
@@ -172,7 +281,7 @@ func runMsg(c *Case) error {
 		last = c.Tags[len(c.Tags)-1]
 	}
 	// decode what was built, followed by junk
-	in := append(append([]byte(nil), fc.Pkt...), c.Junk...)
+	in := inBuf(c, fc.Pkt, c.Junk)
 	got, consumed, derr := go9p.Unpack(in, c.Dotu)
 	if derr != nil {
 		return fmt.Errorf("%s dotu=%v: Unpack of the constructed packet (%d bytes + %d junk) failed: %v", ref9p.TypeName(m.Type), c.Dotu, len(fc.Pkt), len(c.Junk), derr)
@@ -189,7 +298,13 @@ func runMsg(c *Case) error {
 	if d := ref9p.Diff(a, b); d != "" {
 		return fmt.Errorf("%s dotu=%v: decoded field differs from the input: %s", ref9p.TypeName(m.Type), c.Dotu, d)
 	}
-	return unpackedTags(c, got, in, last)
+	if err := unpackedTags(c, got, in, last); err != nil {
+		return err
+	}
+	if len(c.UTags) > 0 {
+		mm.Tag = c.UTags[len(c.UTags)-1]
+	}
+	return afterMsg(c, got, &mm, in)
 }
 
 // unpackedTags: a tag set on the Fcall that Unpack returned appears in that
@@ -240,8 +355,25 @@ func runDir(c *Case) error {
 		}
 		all = append(all, held[i]...)
 	}
-	buf := append(append([]byte(nil), all...), c.Junk...)
+	buf := inBuf(c, all, c.Junk)
 	b := buf
+	var kept []*go9p.Dir
+	// keptDirs: every Dir that UnpackDir returned so far still holds the reference
+	// values (all of a Dir's fields are values of their own, none may refer to
+	// the buffer it was decoded from)
+	keptDirs := func(when string) error {
+		for i, d := range kept {
+			gs := ref9p.CanonStat(ptr(conv.Stat(d)), c.Dotu)
+			ws := ref9p.CanonStat(recs[i], c.Dotu)
+			if gs != ws {
+				return fmt.Errorf("record %d of %d dotu=%v: a field of the Dir that UnpackDir returned (and that compared equal right after decoding) changed after %s:\n got  %s\n want %s", i, len(recs), c.Dotu, when, statStr(&gs), statStr(&ws))
+			}
+			if int(d.Size) != ref9p.StatLen(recs[i], c.Dotu)-2 {
+				return fmt.Errorf("record %d: Dir.Size changed to %d after %s", i, d.Size, when)
+			}
+		}
+		return nil
+	}
 	for i, s := range recs {
 		d, nb, amt, err := go9p.UnpackDir(b, c.Dotu)
 		if err != nil {
@@ -261,6 +393,14 @@ func runDir(c *Case) error {
 		ws := ref9p.CanonStat(s, c.Dotu)
 		if gs != ws {
 			return fmt.Errorf("UnpackDir record %d dotu=%v: fields differ:\n got  %#v\n want %#v", i, c.Dotu, gs, ws)
+		}
+		kept = append(kept, d)
+		if c.After == "eat" {
+			// the consumer is done with the bytes of this record
+			clobber(c, b[:amt])
+			if err := keptDirs(fmt.Sprintf("the %d bytes it was decoded from were overwritten", amt)); err != nil {
+				return err
+			}
 		}
 		// a decoded Dir encodes back to the same record, in the same dialect ...
 		if re := go9p.PackDir(d, c.Dotu); !bytes.Equal(re, ref9p.EncodeStat(s, c.Dotu)) {
@@ -282,7 +422,46 @@ func runDir(c *Case) error {
 		}
 		b = nb
 	}
-	return nil
+	switch c.After {
+	case "":
+		return nil
+	case "next":
+		// the buffer receives another record, which is decoded from it
+		ns, n, err := ref9p.DecodeStat(c.Next, c.NextDotu)
+		if err != nil || n != len(c.Next) {
+			return fmt.Errorf("harness: reference bytes of the next stat record do not decode: %v", err)
+		}
+		full := buf[:cap(buf)]
+		if len(full) < len(c.Next) {
+			return fmt.Errorf("harness: buffer of %d bytes cannot take the next record of %d", len(full), len(c.Next))
+		}
+		copy(full, c.Next)
+		d2, _, amt, derr := go9p.UnpackDir(full[:len(c.Next)], c.NextDotu)
+		if derr != nil || amt != len(c.Next) {
+			return fmt.Errorf("stat record dotu=%v received into the buffer earlier records were decoded from: UnpackDir amt %d of %d, err %v", c.NextDotu, amt, len(c.Next), derr)
+		}
+		if gs, ws := ref9p.CanonStat(ptr(conv.Stat(d2)), c.NextDotu), ref9p.CanonStat(ns, c.NextDotu); gs != ws {
+			return fmt.Errorf("stat record dotu=%v received into the buffer earlier records were decoded from: fields differ:\n got  %s\n want %s", c.NextDotu, statStr(&gs), statStr(&ws))
+		}
+		if err := keptDirs("another record was received into the same buffer and decoded"); err != nil {
+			return err
+		}
+		clobber(c, full)
+		if gs, ws := ref9p.CanonStat(ptr(conv.Stat(d2)), c.NextDotu), ref9p.CanonStat(ns, c.NextDotu); gs != ws {
+			return fmt.Errorf("stat record dotu=%v: a field of the Dir that UnpackDir returned changed after its source buffer was overwritten (flip):\n got  %s\n want %s", c.NextDotu, statStr(&gs), statStr(&ws))
+		}
+	default:
+		clobber(c, buf)
+	}
+	return keptDirs("the source buffer was overwritten (" + c.After + ")")
+}
+
+func statStr(s *ref9p.Stat) string {
+	x := fmt.Sprintf("%#v", *s)
+	if len(x) > 400 {
+		x = x[:400] + "…"
+	}
+	return x
 }
 
 func ptr[T any](v T) *T { return &v }
@@ -326,7 +505,7 @@ func runRread(c *Case) error {
 	if len(c.Tags) > 0 {
 		last = c.Tags[len(c.Tags)-1]
 	}
-	in := append(append([]byte(nil), fc.Pkt...), c.Junk...)
+	in := inBuf(c, fc.Pkt, c.Junk)
 	got, consumed, derr := go9p.Unpack(in, c.Dotu)
 	if derr != nil || consumed != len(want) {
 		return fmt.Errorf("Unpack of two-step Rread: consumed %d err %v", consumed, derr)
@@ -334,7 +513,15 @@ func runRread(c *Case) error {
 	if !bytes.Equal(got.Data[:got.Count], m.Data) || got.Tag != last {
 		return fmt.Errorf("two-step Rread decodes to different data or tag")
 	}
-	return unpackedTags(c, got, in, last)
+	if err := unpackedTags(c, got, in, last); err != nil {
+		return err
+	}
+	mm := *m
+	mm.Tag = last
+	if len(c.UTags) > 0 {
+		mm.Tag = c.UTags[len(c.UTags)-1]
+	}
+	return afterMsg(c, got, &mm, in)
 }
 
 func firstDiff(a, b []byte) int {
@@ -378,6 +565,10 @@ func sampleOf(c *Case) interface{} {
 	if len(s.Junk) > 8 {
 		s.Junk = s.Junk[:8]
 	}
+	if len(s.Next) > 32 {
+		s.Desc += fmt.Sprintf(" (next truncated from %d bytes)", len(s.Next))
+		s.Next = s.Next[:32]
+	}
 	if len(s.Prev) > 32 {
 		s.Desc += fmt.Sprintf(" (prev truncated from %d bytes)", len(s.Prev))
 		s.Prev = s.Prev[:32]
@@ -408,6 +599,70 @@ func drawReuse(t *rapid.T, c *Case, cfg gen9p.Cfg) {
 	}
 	c.Tags = rapid.SliceOfN(tagG(), 0, 3).Draw(t, "tags")
 	c.UTags = rapid.SliceOfN(tagG(), 0, 3).Draw(t, "utags")
+}
+
+// drawAfter draws what happens to the decode source buffer once the decoder has
+// returned (see Case.After). Seven cases in eight overwrite it in some way.
+func drawAfter(t *rapid.T, c *Case, cfg gen9p.Cfg) {
+	modes := []string{"", "zero", "flip", "flip", "fill", "fill", "next", "next"}
+	if c.Kind == "dir" {
+		modes = append(modes, "eat", "eat")
+	}
+	c.After = rapid.SampledFrom(modes).Draw(t, "after")
+	switch c.After {
+	case "fill", "eat":
+		c.AfterFill = rapid.SliceOfN(rapid.Byte(), 1, 8).Draw(t, "afterfill")
+	case "next":
+		c.NextDotu = rapid.Bool().Draw(t, "nextdotu")
+		if c.Kind == "dir" {
+			st := cfg.Stat(t, c.NextDotu, "next")
+			c.Next = ref9p.EncodeStat(&st, c.NextDotu)
+		} else {
+			c.Next = ref9p.Encode(cfg.Msg(t, gen9p.AnyType(t), c.NextDotu), c.NextDotu)
+		}
+	}
+}
+
+// strBytes: how many bytes of string data (the part of a decoded value that is
+// not allowed to depend on the buffer afterwards) the message carries.
+func strBytes(m *ref9p.Msg, dotu bool) int {
+	n := 0
+	switch m.Type {
+	case ref9p.Tversion, ref9p.Rversion:
+		n = len(m.Version)
+	case ref9p.Tauth, ref9p.Tattach:
+		n = len(m.Uname) + len(m.Aname)
+	case ref9p.Rerror:
+		n = len(m.Ename)
+	case ref9p.Twalk:
+		for _, w := range m.Wname {
+			n += len(w)
+		}
+	case ref9p.Tcreate:
+		n = len(m.Name)
+		if dotu {
+			n += len(m.Ext)
+		}
+	case ref9p.Rstat, ref9p.Twstat:
+		n = statStrBytes(&m.Stat, dotu)
+	}
+	return n
+}
+
+func statStrBytes(s *ref9p.Stat, dotu bool) int {
+	n := len(s.Name) + len(s.Uid) + len(s.Gid) + len(s.Muid)
+	if dotu {
+		n += len(s.Ext)
+	}
+	return n
+}
+
+func afterLabel(c *Case, strs int) {
+	a := c.After
+	if a == "" {
+		a = "none"
+	}
+	hx.Label(fmt.Sprintf("%s buffer-afterwards=%s strings=%v", c.Kind, a, strs > 0))
 }
 
 func fillG() *rapid.Generator[[]byte] {
@@ -506,6 +761,20 @@ func TestCanonicalTable(t *testing.T) {
 						c.Tags = []uint16{ref9p.NOTAG, 1, ref9p.NOTAG, 0}
 						c.UTags = []uint16{ref9p.NOTAG, 0xABCD, 0, ref9p.NOTAG}
 					}
+					// every row: the buffer the packet was decoded from is overwritten
+					// afterwards and the decoded fields are compared once more
+					switch state {
+					case "fresh":
+						c.After = "flip"
+					case "fill-aa":
+						c.After = "zero"
+					case "fill-ff":
+						c.After, c.AfterFill = "fill", []byte{0x5A, 0x00, 0xFF}
+					case "prev":
+						// the next frame arrives in the same buffer: a Twalk with 16 names
+						c.After, c.NextDotu = "next", !dotu
+						c.Next = ref9p.Encode(canonical(ref9p.Twalk, "max"), c.NextDotu)
+					}
 					hx.Eval()
 					hx.Label(fmt.Sprintf("canonical type=%s dotu=%v", ref9p.TypeName(typ), dotu))
 					if which != "zero" {
@@ -524,7 +793,32 @@ func TestCanonicalTable(t *testing.T) {
 			}
 		}
 	}
-	hx.Exhaustive("canonical table: 27 types x 2 dialects x {all-zero, all-max, typical} x Fcall {fresh, filled 0xAA, filled 0xFF, used for a longer message}, the re-used ones with SetTag sequences through NOTAG on the built and on the decoded Fcall")
+	hx.Exhaustive("canonical table: 27 types x 2 dialects x {all-zero, all-max, typical} x Fcall {fresh, filled 0xAA, filled 0xFF, used for a longer message}, the re-used ones with SetTag sequences through NOTAG on the built and on the decoded Fcall; in every row the decode source buffer is then flipped / zeroed / filled / re-used for another message and the decoded fields compared again")
+	// stat records on their own: decoded with UnpackDir, then the buffer is
+	// overwritten in each of the ways, then the kept Dirs are compared again
+	for _, dotu := range []bool{false, true} {
+		for _, which := range []string{"max", "typical"} {
+			for _, after := range []string{"zero", "flip", "fill", "eat", "next"} {
+				st := canonical(ref9p.Rstat, which).Stat
+				other := canonical(ref9p.Rstat, map[string]string{"max": "typical", "typical": "max"}[which]).Stat
+				c := &Case{Kind: "dir", Dotu: dotu, Nrec: 3, After: after, Junk: []byte{1, 2, 3}, Desc: "stat " + which + " then buffer " + after}
+				c.Pkt = append(append(ref9p.EncodeStat(&st, dotu), ref9p.EncodeStat(&other, dotu)...), ref9p.EncodeStat(&st, dotu)...)
+				if after == "next" {
+					c.NextDotu = !dotu
+					c.Next = ref9p.EncodeStat(&other, c.NextDotu)
+				}
+				hx.Eval()
+				hx.Label(fmt.Sprintf("canonical stat dotu=%v", dotu))
+				hx.NonTrivial("canon-dir", dotu, which, after)
+				hx.Sample("canonical-dir", sampleOf(c))
+				if err := run(c); err != nil {
+					hx.Violation("canonical", c, err.Error())
+					t.Errorf("%v", err)
+				}
+			}
+		}
+	}
+	hx.Exhaustive("stat records on their own: 2 dialects x {all-max, typical} x source buffer afterwards {zeroed, flipped, filled, each record overwritten once consumed, re-used for a record of the other dialect}")
 }
 
 func canonical(typ uint8, which string) *ref9p.Msg {
@@ -580,9 +874,11 @@ func TestPropCodec(t *testing.T) {
 			c.Junk = rapid.SliceOfN(rapid.Byte(), 1, 40).Draw(t, "junk")
 		}
 		drawReuse(t, c, cfg)
+		drawAfter(t, c, cfg)
 		hx.Eval()
 		hx.Label(fmt.Sprintf("type=%s dotu=%v str=%s", ref9p.TypeName(typ), dotu, gen9p.StrClass(m)))
 		reuseLabels(c)
+		afterLabel(c, strBytes(m, dotu))
 		if nontrivial(m, dotu, c.Pkt) {
 			hx.NonTrivial("msg", dotu, c.Pkt)
 		}
@@ -599,14 +895,18 @@ func TestPropDir(t *testing.T) {
 		dotu := rapid.Bool().Draw(t, "dotu")
 		n := rapid.IntRange(1, 5).Draw(t, "nrec")
 		c := &Case{Kind: "dir", Dotu: dotu, Nrec: n, DirSize: gen9p.U16().Draw(t, "dirsize")}
+		strs := 0
 		for i := 0; i < n; i++ {
 			s := cfg.Stat(t, dotu, "st")
+			strs += statStrBytes(&s, dotu)
 			c.Pkt = append(c.Pkt, ref9p.EncodeStat(&s, dotu)...)
 		}
 		if rapid.Bool().Draw(t, "withjunk") {
 			c.Junk = rapid.SliceOfN(rapid.Byte(), 1, 40).Draw(t, "junk")
 		}
+		drawAfter(t, c, cfg)
 		hx.Eval()
+		afterLabel(c, strs)
 		hx.Label(fmt.Sprintf("dir dotu=%v nrec=%d", dotu, n))
 		hx.NonTrivial("dir", dotu, c.Pkt)
 		hx.Sample("dir", sampleOf(c))
@@ -630,8 +930,10 @@ func TestPropRread(t *testing.T) {
 			c.Junk = rapid.SliceOfN(rapid.Byte(), 1, 40).Draw(t, "junk")
 		}
 		drawReuse(t, c, gen9p.Cfg{Heavy: true, MaxData: 20000})
+		drawAfter(t, c, gen9p.Cfg{Heavy: true, MaxData: 20000})
 		hx.Eval()
 		reuseLabels(c)
+		afterLabel(c, 0)
 		hx.Label(fmt.Sprintf("rread-two-step shrink=%v tagfirst=%v", n < init, c.TagFirst))
 		if n > 0 {
 			hx.NonTrivial("rread", init, c.Pkt)
@@ -671,6 +973,8 @@ func TestAllStringLengths(t *testing.T) {
 					c.Fill = []byte{0xFF, byte(ln)}
 					c.UTags = []uint16{ref9p.NOTAG}
 				}
+				// afterwards the decode buffer is overwritten; the strings must stay
+				c.After = []string{"flip", "zero", "fill"}[(ln+int(typ))%3]
 				hx.Eval()
 				hx.NonTrivial("len", typ, ln, dotu)
 				if err := run(c); err != nil {
@@ -682,6 +986,6 @@ func TestAllStringLengths(t *testing.T) {
 	}
 	hx.Label("string-length sweep")
 	if hx.Thorough() {
-		hx.Exhaustive("every string length 0..65535 for one string field of each of 9 string-carrying types")
+		hx.Exhaustive("every string length 0..65535 for one string field of each of 9 string-carrying types, the decode buffer flipped / zeroed / filled afterwards")
 	}
 }
